@@ -16,68 +16,122 @@ from .lib.symx import show
 STATES = ['Alive', 'Suspect', 'Down']
 
 
+ORDERINGS = (('lt', 0, 1), ('eq', 1, 1), ('gt', 1, 0))      # name, other incarnation, record incarnation
+
+
+def _only_can_change(caller, callee, depth):
+    return callee.nname == 'member::Member::can_change'
+
+
 def extract_can_change(ctx, f, rep):
-    """Decision table (self_state, other_state) -> ('const', bool) | ('cmp', op) with op relating
-    other_incarnation OP self.incarnation."""
-    b = f.fn('member::Member::can_change')
-    if not ctx.cfg(b).is_loop_free():
-        rep.violation('C01-R1', b.nname, 'loop', 'can_change is no longer loop-free: not extractable')
-        return None
-    paths = ctx.paths(f, b, 'small')
+    """Decision table (record state, update state) -> ('const', bool) | ('cmp', op) | ('fn', {ordering: bool}) with op
+    relating update_incarnation OP record.incarnation: when does Member::change_state accept the update?  Extracted from
+    change_state with can_change inlined, so it does not matter whether the table lives in a function of its own, in
+    change_state itself, or how its tests are nested."""
+    b = f.fn('member::Member::change_state')
+    for fn in ('member::Member::change_state', 'member::Member::can_change'):
+        for x in f.by_name.get(fn, []):
+            if not ctx.cfg(x).is_loop_free():
+                rep.violation('C01-R1', x.nname, 'loop', '%s is no longer loop-free: not extractable' % fn)
+                return None
+    paths = ctx.paths(f, b, _only_can_change)
     self_state = ('load', ('field', q.SELF, 'state', None), 0)
     self_inc = ('load', ('field', q.SELF, 'incarnation', None), 0)
-    other_inc = ('param', 0, 2)
-    other_state = ('param', 0, 3)
-    table = {}
+    incs = [k for k in range(2, b.argc + 1) if str(b.locals[k]) == 'u16']
+    sts = [k for k in range(2, b.argc + 1) if str(b.locals[k]).endswith('State')]
+    if len(incs) != 1 or len(sts) != 1:
+        rep.violation('C01-R1', b.nname, 'signature', 'change_state no longer takes one incarnation and one state')
+        return None
+    other_inc, other_state = ('param', 0, incs[0]), ('param', 0, sts[0])
+    rows = []
     ok = True
     for p in paths:
         if p.end != 'return':
-            rep.violation('C01-R1', b.nname, 'path-end:' + p.end, 'can_change has a path that does not return')
+            rep.violation('C01-R1', b.nname, 'path-end:' + p.end, 'change_state has a path that does not return')
             return None
         ss, os_ = set(STATES), set(STATES)
+        cmps = []
         for c in p.conds():
             vs = q.cond_variants(f, c)
             sc = q.scrutinee(c)
+            e, t = q.norm_bool(c)
             if vs is not None and sc == self_state:
                 ss &= vs
             elif vs is not None and sc == other_state:
                 os_ &= vs
+            elif t is not None and e[0] == 'binop' and e[1] in ('Gt', 'Ge', 'Lt', 'Le', 'Eq', 'Ne') and \
+                    {e[2], e[3]} == {other_inc, self_inc}:
+                op = e[1]
+                if e[2] == self_inc:   # orient as other OP self
+                    op = {'Gt': 'Lt', 'Ge': 'Le', 'Lt': 'Gt', 'Le': 'Ge', 'Eq': 'Eq', 'Ne': 'Ne'}[op]
+                cmps.append((op, t))
+            elif t is not None and q.variant_test(f, c, lambda v: v == self_state) is not None:
+                ss &= q.variant_test(f, c, lambda v: v == self_state)       # `self.state == State::Down` spellings
+            elif t is not None and q.variant_test(f, c, lambda v: v == other_state) is not None:
+                os_ &= q.variant_test(f, c, lambda v: v == other_state)
             else:
                 rep.violation('C01-R1', b.nname, 'foreign-condition',
-                              'can_change branches on something other than the two states: %s' % show(c['expr'], b),
-                              site=c['span'])
+                              'the precedence decision branches on something other than the two states and the two '
+                              'incarnations: %s' % show(c['expr'], b), site=c['span'])
                 ok = False
+        writes = {(w['place'], w['value']) for w in p.writes()}
+        want = {(('field', q.SELF, 'state', None), other_state), (('field', q.SELF, 'incarnation', None), other_inc)}
         r = p.ret
-        if r[0] == 'const' and r[1] == 'bool':
-            entry = ('const', bool(r[2]))
-        elif r[0] == 'binop' and r[1] in ('Gt', 'Ge', 'Lt', 'Le', 'Eq', 'Ne') and {r[2], r[3]} == {other_inc, self_inc}:
+        final = []      # the returned boolean may itself be the last comparison
+        if r[0] == 'binop' and r[1] in ('Gt', 'Ge', 'Lt', 'Le', 'Eq', 'Ne') and {r[2], r[3]} == {other_inc, self_inc}:
             op = r[1]
-            if r[2] == self_inc:   # orient as other OP self
+            if r[2] == self_inc:
                 op = {'Gt': 'Lt', 'Ge': 'Le', 'Lt': 'Gt', 'Le': 'Ge', 'Eq': 'Eq', 'Ne': 'Ne'}[op]
-            entry = ('cmp', op)
+            final = [op]
+        if writes == want and (q.is_const(r, 1) or final):
+            rows.append((ss, os_, cmps, True, final))
+        elif not writes and (q.is_const(r, 0) or final):
+            rows.append((ss, os_, cmps, False, final))
         else:
-            rep.violation('C01-R1', b.nname, 'result-shape',
-                          'can_change result is not a constant or a comparison of the two incarnations: %s'
-                          % show(r, b))
+            rep.violation('C01-R1', b.nname, 'outcome-shape', 'a path of change_state neither (writes exactly state := state, '
+                          'incarnation := incarnation and returns true) nor (writes nothing and returns false)',
+                          facts={'writes': sorted(show(pl, b) + ':=' + show(v, b) for pl, v in writes), 'ret': show(r, b)})
             ok = False
-            continue
-        for s in ss:
-            for o in os_:
-                if (s, o) in table and table[(s, o)] != entry:
-                    rep.violation('C01-R1', b.nname, 'ambiguous-entry:%s,%s' % (s, o), 'two paths disagree')
-                    ok = False
-                table[(s, o)] = entry
-    for s in STATES:
+    OPS = {'Gt': lambda a, c: a > c, 'Ge': lambda a, c: a >= c, 'Lt': lambda a, c: a < c, 'Le': lambda a, c: a <= c,
+           'Eq': lambda a, c: a == c, 'Ne': lambda a, c: a != c}
+    table = {}
+    for s_ in STATES:
         for o in STATES:
-            if (s, o) not in table:
-                rep.violation('C01-R1', b.nname, 'missing-entry:%s,%s' % (s, o), 'no path covers this state pair')
-                ok = False
-    return table if ok else None
+            fn = {}
+            for name, oi, si in ORDERINGS:
+                outs = set()
+                for ss, os_, cmps, accept, final in rows:
+                    if s_ in ss and o in os_ and all(OPS[op](oi, si) == t for op, t in cmps):
+                        if final:
+                            # (a path that returns the comparison itself: it accepted iff it wrote, and the value it
+                            # returns must agree with that)
+                            if OPS[final[0]](oi, si) != accept:
+                                continue
+                        outs.add(accept)
+                if len(outs) != 1:
+                    rep.violation('C01-R1', b.nname, '%s-entry:%s,%s,%s' % ('missing' if not outs else 'ambiguous', s_, o, name),
+                                  'no path / two disagreeing paths cover this case')
+                    ok = False
+                    continue
+                fn[name] = outs.pop()
+            if len(fn) == 3:
+                if len(set(fn.values())) == 1:
+                    table[(s_, o)] = ('const', fn['lt'])
+                else:
+                    for op in OPS:
+                        if all(OPS[op](oi, si) == fn[name] for name, oi, si in ORDERINGS):
+                            table[(s_, o)] = ('cmp', op)
+                            break
+                    else:
+                        table[(s_, o)] = ('fn', fn)
+    return table if ok and len(table) == 9 else None
 
 
 def eval_entry(entry, other_inc, self_inc):
     if entry[0] == 'const':
         return entry[1]
+    if entry[0] == 'fn':
+        return entry[1]['lt' if other_inc < self_inc else ('eq' if other_inc == self_inc else 'gt')]
     op = entry[1]
     return {'Gt': other_inc > self_inc, 'Ge': other_inc >= self_inc, 'Lt': other_inc < self_inc,
             'Le': other_inc <= self_inc, 'Eq': other_inc == self_inc, 'Ne': other_inc != self_inc}[op]
@@ -93,14 +147,14 @@ def oracle(s, i, t, j):
 
 
 def r1_precedence(ctx, f, rep):
-    rep.rule('C01-R1', 'precedence table of Member::can_change, extracted from MIR over (state x state x ordering of '
-                       'the two incarnations), equals SWIM precedence: Down is top and final; else higher '
+    rep.rule('C01-R1', 'precedence table of Member::change_state (with can_change inlined, if it exists), extracted from '
+                       'MIR over (state x state x ordering of the two incarnations), equals SWIM precedence: Down is top and final; else higher '
                        'incarnation wins; at equal incarnation Suspect overrides Alive. Then idempotence, absorption '
                        'and commutation are checked exhaustively on the extracted table.')
     table = extract_can_change(ctx, f, rep)
     if table is None:
         return None
-    b = f.fn('member::Member::can_change')
+    b = (f.by_name.get('member::Member::can_change') or [f.fn('member::Member::change_state')])[0]
     n = 0
     for s in STATES:
         for t in STATES:
@@ -145,45 +199,20 @@ def r1_precedence(ctx, f, rep):
 
 
 def r2_change_state(ctx, f, rep):
-    rep.rule('C01-R2', 'Member::change_state writes state/incarnation exactly when can_change(self, incarnation, state) '
-                       'is true, writes exactly its two parameters, returns that boolean, and does nothing else.')
+    rep.rule('C01-R2', 'Member::change_state writes state/incarnation exactly when the precedence table accepts, writes exactly '
+                       'its two parameters, returns that boolean (all three are part of the extraction of R1), and does '
+                       'nothing else: it calls nothing but can_change, and nobody else consults can_change.')
     b = f.fn('member::Member::change_state')
-    paths = ctx.paths(f, b, 'none')
-    inc, state = ('param', 0, 2), ('param', 0, 3)
-    n_true = n_false = 0
-    for p in paths:
-        calls = p.calls()
-        good_call = (len(calls) == 1 and calls[0]['res'] == 'member::Member::can_change'
-                     and calls[0]['args'][1:] == [inc, state]
-                     and calls[0]['args'][0][0] == 'ref' and calls[0]['args'][0][1] == q.SELF)
-        if not good_call:
-            rep.violation('C01-R2', b.nname, 'calls', 'change_state must consult can_change(self, incarnation, state) '
-                          'exactly once and call nothing else; saw %s' % [c['res'] or c['decl'] for c in calls])
-            continue
-        cid = calls[0]['id']
-        cs = [c for c in p.conds() if c['expr'] == ('call', cid)]
-        truth = q.cond_truth(cs[0]) if len(cs) == 1 and len(p.conds()) == 1 else None
-        writes = {(w['place'], w['value']) for w in p.writes()}
-        if truth is True:
-            n_true += 1
-            want = {(('field', q.SELF, 'state', None), state), (('field', q.SELF, 'incarnation', None), inc)}
-            rep.check(writes == want and p.ret in (('const', 'bool', 1, 'true'), ('call', cid)), 'C01-R2', b.nname,
-                      'on can_change=true: state:=state, incarnation:=incarnation, returns true',
-                      site=calls[0]['span'], construct='true-branch',
-                      facts={'writes': sorted(show(pl, b) + ':=' + show(v, b) for pl, v in writes),
-                             'ret': show(p.ret, b)})
-        elif truth is False:
-            n_false += 1
-            rep.check(not writes and p.ret in (('const', 'bool', 0, 'false'), ('call', cid)), 'C01-R2', b.nname,
-                      'on can_change=false: no write, returns false', site=calls[0]['span'],
-                      construct='false-branch',
-                      facts={'writes': sorted(show(pl, b) for pl, v in writes), 'ret': show(p.ret, b)})
-        else:
-            rep.violation('C01-R2', b.nname, 'branching', 'change_state must branch only on the can_change result')
-    rep.floor('C01-R2', n_true + n_false, 2, 'change_state paths')
-    # can_change has exactly one client
-    callers = f.callers_of(lambda n: n == 'member::Member::can_change')
-    rep.check([c[0].nname for c in callers] == ['member::Member::change_state'], 'C01-R2', 'member::Member::can_change',
+    n = 0
+    for p in ctx.paths(f, b, _only_can_change):
+        n += 1
+        calls = [c for c in p.calls()]
+        rep.check(not calls, 'C01-R2', b.nname, 'change_state calls nothing but the precedence table', construct='calls',
+                  facts={'calls': [c['res'] or c['decl'] for c in calls]})
+    rep.floor('C01-R2', n, 2, 'change_state paths')
+    # can_change, when it is a function of its own, has exactly one client
+    callers = f.callers_of(lambda n_: n_ == 'member::Member::can_change')
+    rep.check({c[0].nname for c in callers} <= {'member::Member::change_state'}, 'C01-R2', 'member::Member::can_change',
               'only change_state consults the precedence table', construct='callers',
               facts={'callers': [c[0].nname for c in callers]})
 
@@ -458,6 +487,26 @@ def r4_routing(ctx, f, rep):
         rep.check(good, 'C01-R4', au.nname, 'every update handed to apply_update reaches Members::apply, unconditionally and '
                   'unchanged', construct='apply-update-unconditional')
     rep.floor('C01-R4', n, 2, 'returning paths of apply_update')
+    # ... and neither does Members::apply: it hands the update, unchanged, to apply_existing_if with a condition that is
+    # always true - the precedence table and the conflict rule alone decide; a pre-filter here (on incarnations, on
+    # states) silently refuses conflict winners and Down news the table would accept
+    ab = f.fn('member::Members::apply')
+    n = 0
+    for p in ctx.paths(f, ab, 'none'):
+        for e in p.calls():
+            if e['res'] != 'member::Members::apply_existing_if':
+                continue
+            n += 1
+            cond = e['args'][2] if len(e['args']) > 2 else None
+            always = False
+            if cond and cond[0] == 'agg' and cond[1] == 'closure':
+                cps = [cp for cp in ctx.paths(f, f.fn(cond[2]), 'none') if cp.end == 'return']
+                always = bool(cps) and all(q.is_const(cp.ret, 1) for cp in cps)
+            rep.check(always and q.pre_havoc(e['args'][1]) in (('param', 0, 2), ('load', ('local', 0, 2), 0)) or
+                      (always and e['args'][1] == ('param', 0, 2)), 'C01-R4', ab.nname,
+                      'Members::apply consults apply_existing_if(update, |_| true): no filter in front of the table',
+                      site=e['span'], construct='apply-condition-always-true')
+    rep.floor('C01-R4', n, 1, 'apply_existing_if calls in Members::apply')
 
 
 def r5_state_transfer(ctx, f, rep):
@@ -498,6 +547,36 @@ def r5_state_transfer(ctx, f, rep):
             rep.check(len(hand) == 1, 'C01-R5', b.nname, 'each item is handed to exactly one of apply_update / '
                       'handle_self_update', construct='item-dispatched')
     rep.floor('C01-R5', n, 4, 'returning paths of apply_many')
+    # ... and what a datagram of an active sender carries is handed over whole: on every handle_data path on which the
+    # sender was found active, apply_many is called with the drained scratch buffer and do_broadcast = true
+    from . import c12
+    hd = f.fn('Foca::handle_data')
+    n = 0
+    for p in ctx.paths(f, hd, 'none'):
+        if p.end != 'return':
+            continue
+        h, src, msg = c12.header_parts(p)
+        if h is None or not any(e['res'] == 'Foca::apply_update' for e in p.calls()):
+            continue
+        active = None
+        for c in p.conds():
+            if c.get('dty') == 'bool' and q.ok_payload_of(p, c['expr']) is not None and active is None:
+                active = q.cond_truth(c)
+        if active is not True:
+            continue
+        n += 1
+        am = [e for e in p.calls() if e['res'] == 'Foca::apply_many']
+        good = len(am) == 1
+        if good:
+            calls = {c['id']: c for c in p.calls()}
+            it = am[0]['args'][1]
+            good = it[0] == 'call' and calls[it[1]]['res'] == 'alloc::vec::Vec::drain' and 'RangeFull' in calls[it[1]].get('gargs', '') \
+                and q.is_const(am[0]['args'][2], 1)
+            took = [w for w in p.writes() if w['place'] == q.self_field('updates_buf') and w.get('via') == 'mem::take']
+            good = good and bool(took)
+        rep.check(good, 'C01-R5', hd.nname, 'the payload of an active sender always reaches apply_many, whole (drain(..) of the '
+                  'decoded updates) and with do_broadcast = true', construct='payload-applied')
+    rep.floor('C01-R5', n, 40, 'handle_data paths with an active sender')
 
 
 def check(ctx):
